@@ -3,6 +3,7 @@ Helper lemmas for C09: the recursion of `diff` on the order `n`, label bookkeepi
 differencing, list facts for cumulative scans and arg-extrema.
 -/
 import DimModel.Proofs.C08
+import DimModel.Spec.C01
 namespace DimModel
 namespace AxisLemmas
 open Lib
@@ -212,6 +213,48 @@ theorem set_set_getD_pred (sh : List Nat) (pos v : Nat) :
   · rw [List.set_eq_of_length_le (by omega : sh.length ≤ pos),
       List.set_eq_of_length_le (by omega : sh.length ≤ pos),
       List.set_eq_of_length_le (by omega : sh.length ≤ pos)]
+
+/-! ### indexing with one scalar label per dimension (whole-array arg-extremum, `argWhole_index_back`) -/
+
+/-- one scalar label per axis, each the label found first at position `u[i]` of its axis: the positions the
+specification of label indexing (C01) assigns are the scalars `u` -/
+theorem positions_scalars : ∀ (axes : List Axis) (ls : List Label) (u : List Nat),
+    ls.length = axes.length → u.length = axes.length →
+    (∀ i (h1 : i < axes.length) (h2 : i < ls.length) (h3 : i < u.length),
+      ls[i] ∈ axes[i].labels ∧ firstIdx axes[i].labels ls[i] = u[i]) →
+    ((ls.map Ix.scalar).zip axes).mapM (fun (x : Ix × Axis) => Spec.positions x.2.labels x.1) =
+      some (u.map PosIx.scalar)
+  | [], [], [], _, _, _ => rfl
+  | [], _ :: _, _, h, _, _ => by simp at h
+  | [], [], _ :: _, _, h, _ => by simp at h
+  | _ :: _, [], _, h, _, _ => by simp at h
+  | _ :: _, _ :: _, [], _, h, _ => by simp at h
+  | ax :: axes, l :: ls, x :: u, h1, h2, h => by
+    have h0 := h 0 (by simp) (by simp) (by simp)
+    simp only [List.getElem_cons_zero] at h0
+    have ih := positions_scalars axes ls u (by simpa using h1) (by simpa using h2)
+      (fun i a b c => by
+        have := h (i + 1) (by simpa using a) (by simpa using b) (by simpa using c)
+        simpa only [List.getElem_cons_succ] using this)
+    have hp0 : Spec.positions ax.labels (Ix.scalar l) = some (PosIx.scalar x) := by
+      simp only [Spec.positions, h0.1, if_true, h0.2]
+    simp only [List.map_cons, List.zip_cons_cons, List.mapM_cons, hp0, ih, bind, Option.bind, pure]
+
+theorem takeAxes_scalars : ∀ (axes : List Axis) (u : List Nat), Spec.takeAxes axes (u.map PosIx.scalar) = []
+  | [], [] => rfl
+  | [], _ :: _ => rfl
+  | _ :: _, [] => rfl
+  | _ :: axes, _ :: u => by
+    simp only [List.map_cons, Spec.takeAxes]
+    exact takeAxes_scalars axes u
+
+theorem outerShape_scalars : ∀ (u : List Nat), outerShape (u.map PosIx.scalar) = []
+  | [] => rfl
+  | _ :: u => by simp only [List.map_cons, outerShape]; exact outerShape_scalars u
+
+theorem expandIx_scalars : ∀ (u j : List Nat), expandIx (u.map PosIx.scalar) j = u
+  | [], _ => rfl
+  | x :: u, j => by simp only [List.map_cons, expandIx]; rw [expandIx_scalars u j]
 
 end AxisLemmas
 end DimModel
